@@ -26,7 +26,7 @@ CLAIMED = {
  'C14': world(W % ('Map', '"map", "keysM"', 'unordered views are compared as sets of associations.'), 'DESIGN.md 4/C14'),
  'C15': world(W % ('Set algebra', '"algebra"', 'all pairs of small sets incl. the same set twice, under three collators; purity is the frame condition.'), 'DESIGN.md 4/C15'),
  'C16': world(W % ('Merge/Extract/Concatenate', '"merge", "catalogfn", "extract", "concat"', 'followed by one change of the result or an operand so that shared state shows as a frame violation.'), 'DESIGN.md 4/C16'),
- 'C17': world(W % ('Iterator', '"iter"', 'two iterators with every move and ToSlot(k) interleaved with mutations of the source; iterators of all kinds in random histories.'), 'DESIGN.md 4/C17'),
+ 'C17': world(W % ('Iterator', '"iter", "iterK"', 'two iterators with every move and ToSlot(k) interleaved with mutations of the source; iterators of all kinds in random histories.'), 'DESIGN.md 4/C17'),
  'C18': world(W % ('aliasing', '"alias", "aliasA"', 'caller-owned Go arrays / maps are first-class objects of the world that the client pokes; any shared storage is a frame violation.'), 'DESIGN.md 4/C18'),
 }
 QNOTE = ('Trusted: TLC, the Go runtime implementing channels as modelled (FIFO wait queues, hand-off, close broadcast), the verif hooks being '
